@@ -272,6 +272,19 @@ def spellcheck (s : Bytes) : Option Obj :=
   | some (o, rest) => if (skipWsAll rest).isEmpty then some o else none
   | none => none
 
+/-- Several objects in a row (a content or object stream without operators): all of them, in order. -/
+def spellSeqLoop : Nat → Bytes → Option (List Obj)
+  | 0, _ => none
+  | f + 1, s =>
+    match skipWsAll s with
+    | [] => some []
+    | c :: t =>
+      match parseObj (2 * s.length + 2) (c :: t) with
+      | some (o, rest) => if rest.length < (c :: t).length then (fun r => o :: r) <$> spellSeqLoop f rest else none
+      | none => none
+
+def spellSeq (s : Bytes) : Option (List Obj) := spellSeqLoop (s.length + 1) s
+
 /-! ### canonical text form -/
 
 def bytesLt : Bytes → Bytes → Bool
